@@ -1,6 +1,6 @@
 @unit cw4stake
 @shim core.rs cw_utils.rs std_more.rs cw2.rs std_adapters.rs snapshot.rs cw_controllers.rs range.rs snapshot_range.rs
-@properties C09 C10 C14 C20
+@properties C09 C10 C14 C20 C06
 
 // ===================================================================== data and state
 @struct packages/cw4/src/query.rs Member
@@ -455,14 +455,14 @@ pub proof fn lemma_same_but5(s: Raw, t: Raw, k: Seq<u8>)
 @end
 
 @fn contracts/cw4-stake/src/contract.rs query_total_weight
-@ensures C09.query_total
+@ensures C09.query_total C06
     r is Ok ==> Some(r->Ok_0.weight) == total_of(deps.storage.view())
 @end
 
 @fn contracts/cw4-stake/src/contract.rs query_member
-@ensures C09.query_member_now C10
+@ensures C09.query_member_now C10 C06
     r is Ok && height is None ==> r->Ok_0.weight == member_of(deps.storage.view(), addr@)
-@ensures C09.query_member_at_height
+@ensures C09.query_member_at_height C06
     r is Ok && height is Some ==> r->Ok_0.weight == at_height::<u64>(deps.storage.view(), "members"@, "members__changelog"@, utf8(addr@), height->Some_0)
 @end
 
@@ -593,7 +593,7 @@ impl JsonT for HooksResponse { uninterp spec fn json(self) -> Seq<u8>; uninterp 
 impl JsonT for ClaimsResponse { uninterp spec fn json(self) -> Seq<u8>; uninterp spec fn unjson(b: Seq<u8>) -> Option<Self>; }
 impl JsonT for StakedResponse { uninterp spec fn json(self) -> Seq<u8>; uninterp spec fn unjson(b: Seq<u8>) -> Option<Self>; }
 @fn contracts/cw4-stake/src/contract.rs query
-@ensures C09.query_routes C10 C14 C20
+@ensures C09.query_routes C10 C14 C20 C06
     r is Ok ==> match msg {
         QueryMsg::Member { addr, at_height } => exists|x: MemberResponse| r->Ok_0@ == x.json() && call_ensures(query_member, (deps, addr, at_height), Ok::<MemberResponse, StdError>(x)),
         QueryMsg::TotalWeight {} => exists|x: TotalWeightResponse| r->Ok_0@ == x.json() && call_ensures(query_total_weight, (deps,), Ok::<TotalWeightResponse, StdError>(x)),
